@@ -5,6 +5,7 @@ package engine
 
 import (
 	"fmt"
+	"github.com/go-kid/ioc/component_definition"
 	"hash/fnv"
 	"os"
 	"path/filepath"
@@ -54,18 +55,19 @@ const (
 )
 
 type env struct {
-	spec   *RunSpec
-	bind   *Binding
-	ctx    *simrt.Ctx
-	prog   *sdl.Program
-	objs   map[string]any
-	ptrID  map[ptrKey]string
-	subs   map[string]any
-	freshN map[string]int
-	hands  map[string]*simrt.Handle
-	obs    *model.Obs
-	names  map[string]string // registered name -> instance id (first owner)
-	scans  map[string]*simrt.TagScanner
+	spec     *RunSpec
+	bind     *Binding
+	ctx      *simrt.Ctx
+	prog     *sdl.Program
+	objs     map[string]any
+	ptrID    map[ptrKey]string
+	subs     map[string]any
+	freshN   map[string]int
+	lateDone map[string]bool
+	hands    map[string]*simrt.Handle
+	obs      *model.Obs
+	names    map[string]string // registered name -> instance id (first owner)
+	scans    map[string]*simrt.TagScanner
 	// initLookups: holder -> "@init:<target id>" -> what the lookup from inside Init returned
 	initLookups map[string]map[string][]string
 }
@@ -441,7 +443,7 @@ func Run(t *testing.T, bind *Binding, spec *RunSpec) (obs *model.Obs) {
 		ctx.Armed[f] = true
 	}
 	e := &env{spec: spec, bind: bind, ctx: ctx, prog: spec.Prog, objs: map[string]any{}, ptrID: map[ptrKey]string{},
-		subs: map[string]any{}, freshN: map[string]int{}, hands: map[string]*simrt.Handle{}, obs: obs, names: map[string]string{}, scans: map[string]*simrt.TagScanner{}, initLookups: map[string]map[string][]string{}}
+		subs: map[string]any{}, freshN: map[string]int{}, lateDone: map[string]bool{}, hands: map[string]*simrt.Handle{}, obs: obs, names: map[string]string{}, scans: map[string]*simrt.TagScanner{}, initLookups: map[string]map[string][]string{}}
 	syslog.SetLogger(simrt.SilentLogger{})
 
 	defer func() {
@@ -558,8 +560,21 @@ func (e *env) main(inClose, closeReturned *bool) {
 	for _, inst := range p.Instances {
 		inst := inst
 		h := &simrt.Handle{ID: inst.ID, Alias: inst.Alias, Qual: inst.Qual, Kind: inst.Kind, Ord: inst.Order, C: ctx}
-		if len(inst.InitLookups) != 0 || inst.SetKey != "" {
+		var lateDefs []*sdl.Instance
+		for _, other := range p.Instances {
+			if other.Contributed && other.ContribBy == inst.ID {
+				lateDefs = append(lateDefs, other)
+			}
+		}
+		if len(inst.InitLookups) != 0 || inst.SetKey != "" || len(lateDefs) != 0 {
 			h.LookupFn = func(h *simrt.Handle) error {
+				for _, other := range lateDefs {
+					if o := e.objs[other.ID]; o != nil && !e.lateDone[other.ID] {
+						e.lateDone[other.ID] = true
+						ctx.Log("late-definition", inst.ID, other.ID)
+						def.RegisterMeta(component_definition.NewMeta(o))
+					}
+				}
 				if inst.SetKey != "" && theApp != nil {
 					ctx.Log("init-set", inst.ID, inst.SetKey)
 					theApp.Configure.Set(inst.SetKey, inst.SetVal)
@@ -596,6 +611,9 @@ func (e *env) main(inClose, closeReturned *bool) {
 		}
 		if p.TypeByName(inst.Type).Zero {
 			simrt.ZeroIDs[inst.Type] = inst.ID
+		}
+		if inst.Contributed && inst.ContribBy != "" {
+			continue // registered later, from the initialization callback of ContribBy
 		}
 		if inst.Contributed {
 			contributed = append(contributed, o)
@@ -988,6 +1006,18 @@ func (e *env) main(inClose, closeReturned *bool) {
 				continue
 			}
 			obs.Lookup[inst.ID] = lookup(inst)
+		}
+		// wiring of the components these lookups created
+		{
+			during := model.NewWorld(p, EffectiveCfg(p)).Created(obs)
+			for _, inst := range p.Instances {
+				if l, ok := obs.Lookup[inst.ID]; ok && !during[inst.ID] && !l.Err && l.Panic == "" && l.Target != "" && !p.TypeByName(inst.Type).Zero {
+					if obs.PointsLate == nil {
+						obs.PointsLate = map[string]map[string][]string{}
+					}
+					obs.PointsLate[inst.ID] = e.wiringOf(inst.ID)
+				}
+			}
 		}
 		// configuration fields of lazy components (created by the lookups above at the latest)
 		for _, inst := range p.Instances {
